@@ -14,6 +14,7 @@ mod p_gen;
 mod p_upd;
 mod p_updcli;
 mod p_createcli;
+mod p_convcli;
 mod p_yaml;
 mod p_render;
 mod p_env;
@@ -46,6 +47,7 @@ fn main() {
         "upd" => p_upd::main(&args[1..], &mut w),
         "updcli" => p_updcli::main(&args[1..], &mut w),
         "createcli" => p_createcli::main(&args[1..], &mut w),
+        "convcli" => p_convcli::main(&args[1..], &mut w),
         "yaml" => p_yaml::main(&args[1..], &mut w),
         "render" => p_render::main(&args[1..], &mut w),
         "envrun" => p_env::main(&args[1..], &mut w),
